@@ -29,10 +29,22 @@ import (
 	"time"
 )
 
-const (
-	verifDir = "/verif"
-	repoDir  = "/repo"
+const verifDir = "/verif"
+
+// repoDir is the tree under test. VERIF_REPO redirects a run to a scratch
+// worktree (used to try checks against deliberately broken copies); such runs
+// write their evidence and replay files under .work, never under evidence/.
+var (
+	repoDir = "/repo"
+	scratch = false
 )
+
+func init() {
+	if r := os.Getenv("VERIF_REPO"); r != "" {
+		repoDir = filepath.Clean(r)
+		scratch = true
+	}
+}
 
 type entry struct {
 	ID        string   `json:"id"`
@@ -77,6 +89,21 @@ func loadRegistry() registry {
 	if err := json.Unmarshal(b, &r); err != nil {
 		die(2, "registry: %v", err)
 	}
+	// one file per check in registry.d (so that checks can be added independently)
+	frag, _ := filepath.Glob(filepath.Join(verifDir, "harness", "registry.d", "*.json"))
+	sort.Strings(frag)
+	for _, f := range frag {
+		fb, err := os.ReadFile(f)
+		if err != nil {
+			die(2, "registry: %v", err)
+		}
+		var e entry
+		if err := json.Unmarshal(fb, &e); err != nil {
+			die(2, "registry %s: %v", f, err)
+		}
+		r.Checks = append(r.Checks, e)
+	}
+	sort.SliceStable(r.Checks, func(i, j int) bool { return r.Checks[i].ID < r.Checks[j].ID })
 	return r
 }
 
@@ -114,6 +141,9 @@ func goEnv() []string {
 
 func workDir(id string) string {
 	d := filepath.Join(verifDir, ".work", id)
+	if scratch {
+		d = filepath.Join(verifDir, ".work", id+"-"+sigHash(repoDir))
+	}
 	os.MkdirAll(d, 0o755)
 	return d
 }
@@ -405,6 +435,11 @@ func runCheck(e entry, tier string, replay string) int {
 	seed, _ := strconv.ParseInt(os.Getenv("VERIF_SEED"), 10, 64)
 	wd := workDir(e.ID)
 	evPath := filepath.Join(verifDir, "evidence", e.ID+".json")
+	replayDir := filepath.Join(verifDir, "replay", e.ID)
+	if scratch {
+		evPath = filepath.Join(wd, "evidence.json")
+		replayDir = filepath.Join(wd, "replay")
+	}
 	bin, err := buildTestBinary(e, wd)
 	if err != nil {
 		fmt.Fprintf(os.Stderr, "HARNESS-ERROR property=%s harness does not build against the current tree:\n%v\n", e.ID, err)
@@ -518,12 +553,12 @@ func runCheck(e entry, tier string, replay string) int {
 		}
 	}
 	sort.Strings(sigs)
-	os.MkdirAll(filepath.Join(verifDir, "replay", e.ID), 0o755)
+	os.MkdirAll(replayDir, 0o755)
 	newVios, knownSeen := 0, 0
 	var evVios []map[string]any
 	for _, sig := range sigs {
 		v := bySig[sig]
-		rp := filepath.Join(verifDir, "replay", e.ID, sigHash(sig)+".json")
+		rp := filepath.Join(replayDir, sigHash(sig)+".json")
 		rf := map[string]any{"property": e.ID, "signature": v.Sig, "what": v.What, "part": v.Part, "case": v.Case}
 		b, _ := json.MarshalIndent(rf, "", " ")
 		os.WriteFile(rp, b, 0o644)
@@ -588,8 +623,11 @@ func runCheck(e entry, tier string, replay string) int {
 		"violations":  newVios,
 		"technique":   e.Technique,
 	}
-	if ev["assumptions"] == nil {
+	if m.Assumptions == nil {
 		ev["assumptions"] = []string{}
+	}
+	if m.Samples == nil {
+		cov["samples"] = []string{}
 	}
 	b, _ := json.MarshalIndent(ev, "", " ")
 	os.MkdirAll(filepath.Join(verifDir, "evidence"), 0o755)
@@ -740,6 +778,24 @@ func writeManifest(r registry) {
 	na := r.NotApplicable
 	if na == nil {
 		na = []map[string]string{}
+	}
+	// every property that is neither claimed nor listed gets a default entry
+	claimed := map[string]bool{}
+	for _, e := range r.Checks {
+		claimed[e.ID] = true
+	}
+	for _, n := range na {
+		claimed[n["property_id"]] = true
+	}
+	if pb, err := os.ReadFile(filepath.Join(verifDir, "properties.jsonl")); err == nil {
+		for _, l := range strings.Split(string(pb), "\n") {
+			var p struct {
+				ID string `json:"id"`
+			}
+			if json.Unmarshal([]byte(l), &p) == nil && p.ID != "" && !claimed[p.ID] {
+				na = append(na, map[string]string{"property_id": p.ID, "reason": "not claimed: the harness designed in DESIGN.md §3 for this property has not been built yet; no other technique is substituted"})
+			}
+		}
 	}
 	m := map[string]any{
 		"version":   1,
